@@ -19,7 +19,7 @@ def extract(g, X):
 
     def save_size():
         b = X.fn_body(file_rs, "save")
-        m = re.search(r"trailer\.size\s*=\s*\(self\.refs\.len\(\)\s*\+\s*(\d+)\)", b)
+        m = re.search(r"\w+\.size\s*=\s*\(\s*self\.refs\.len\(\)\s*\+\s*(\d+)\s*\)", b)
         return m.group(1)
     g.attempt([("sto_size_plus", "N")], "file.rs:save trailer.size", save_size)
 
